@@ -251,6 +251,11 @@ def _scenario(args):
         eds = H.numeric_edits(spec) + H.link_edits(spec)
         try:
             b = H.build(spec)
+            if isinstance(idx, tuple) and idx and idx[0] == "grouped":
+                ne = H.numeric_edits(spec)
+                out["edit"] = "ONE UPDATE: " + " + ".join(ne[k].name for k in idx[1:])
+                H.ModelingUpdate([ne[k].change(b) for k in idx[1:]])
+                idx = None
             if idx is not None:
                 seq = idx if isinstance(idx, tuple) else (idx,)
                 out["edit"] = " ; ".join(eds[k].name for k in seq)
@@ -301,6 +306,12 @@ def run_prop(prop, tier, seed, procs=16):
         items.append((prop, tname, spec, None))
         n = len(H.numeric_edits(spec) + H.link_edits(spec))
         for i in range(n): items.append((prop, tname, spec, i))
+        if prop == "C02" and tname in ("single", "two_independent_chains", "two_servers_repeated_job"):
+            # one update carrying two numeric changes (the stored total must still be the sum of the recomputed components)
+            import random
+            ne = H.numeric_edits(spec); rg = random.Random(f"{seed}|{tname}|grouped")
+            pairs = [(i, j) for i in range(len(ne)) for j in range(len(ne)) if i != j and ne[i].name.split("=")[0] != ne[j].name.split("=")[0]]
+            for i, j in (pairs if tier == "thorough" else rg.sample(pairs, min(len(pairs), 120))): items.append((prop, tname, spec, ("grouped", i, j)))
         if tier == "thorough":
             import random
             rnd = random.Random(f"{seed}|{tname}")
